@@ -539,8 +539,7 @@ func entryProbe(s *Sink, name string, t reflect.Type, fs []LField, buf []byte, c
 		w = w[len(w)-4:]
 	}
 	entryWindow[t] = w
-	for k := 0; k <= len(w); k += len(w) { // the empty list and the window
-		sub := w[:k]
+	runList := func(sub []entryCase) {
 		var bufs [][]byte
 		want := "ok"
 		for _, e := range sub {
@@ -582,8 +581,23 @@ func entryProbe(s *Sink, name string, t reflect.Type, fs []LField, buf []byte, c
 			s.Fail(map[string]any{"op": "entry-UnmarshalArray", "type": name, "bufs_hex": hx, "want": want, "want_values": exp, "got": c, "got_values": got},
 				"UnmarshalArray is not the element-wise Unmarshal of its datagrams, in order, failing iff one of them fails")
 		}
-		if len(w) == 0 {
-			break
+	}
+	runList(nil)
+	runList(w)
+	if cl == "ok" && len(buf) == 64 {
+		// the same type's 'no value' datagram (header and serial number kept, everything else zero) between two copies of
+		// this one: what one element decodes to must not depend on its neighbours
+		blank := make([]byte, 64)
+		copy(blank, buf[:8])
+		p := reflect.New(t)
+		bc, _ := safeUnmarshal(append([]byte{}, blank...), p.Interface())
+		if bc != "panic" {
+			bv := "[]"
+			if bc == "ok" {
+				bv = valsOf(p.Elem(), fs, true)
+			}
+			cur := entryCase{buf, cl, vals}
+			runList([]entryCase{cur, {blank, bc, bv}, cur})
 		}
 	}
 }
